@@ -1895,14 +1895,19 @@ def schema_created_inside_transaction(ctx, rid):
 # ------------------------------------------------------------------------------------------------
 # R18.15 (F-AK)  script output is bytes: reading the log must not depend on it being UTF-8
 
-def log_read_tolerates_any_bytes(ctx, rid):
-    ctx.rule(rid, "redo-log reads the per-target log with a primitive that accepts any bytes (read_until / read / fill_buf, converted lossily): BufRead::read_line, lines(), read_to_string and String::from_utf8(..)? fail on a line that is not valid UTF-8 - a Latin-1 compiler message - and end the view, so that every later line of the build is missing live and in the replay while redo exits 0")
+def shebang_read_tolerates_any_bytes(ctx, rid):
+    log_read_tolerates_any_bytes(ctx, rid, body=anchors.start_self(ctx.prog),
+                                 text="start_self reads the first line of the chosen .do file (to honour a `#!` line) with a primitive that accepts any bytes: BufRead::read_line fails on a first line that is not valid UTF-8 (a Latin-1 comment), and a script that /bin/sh runs without complaint could not be used to build its target at all")
+
+
+def log_read_tolerates_any_bytes(ctx, rid, body=None, text=None):
+    ctx.rule(rid, text or "redo-log reads the per-target log with a primitive that accepts any bytes (read_until / read / fill_buf, converted lossily): BufRead::read_line, lines(), read_to_string and String::from_utf8(..)? fail on a line that is not valid UTF-8 - a Latin-1 compiler message - and end the view, so that every later line of the build is missing live and in the replay while redo exits 0")
     prog = ctx.prog
-    b = prog.one(r"@bin::log::LogState::catlog")
+    b = body or prog.one(r"@bin::log::LogState::catlog")
     ba = BA.of(b)
     strict = ba.calls(r".*::read_line|.*BufRead>?::lines|std::io::BufRead::lines|.*::read_to_string|std::io::read_to_string")
     tolerant = ba.calls(r".*::read_until|.*BufRead>?::fill_buf|.*::read_to_end|(<.* as )?std::io::Read>?::read|.*BufRead>?::split")
-    ctx.floor(rid, "reads of the log in the follower", len(strict) + len(tolerant), 1)
+    ctx.floor(rid, "line reads in %s" % common.short(b.key), len(strict) + len(tolerant), 1)
     ctx.ob(rid, "%s|log-read-accepts-any-bytes" % b.key, not strict and bool(tolerant), where=ctx.where(b, (strict or tolerant or [0])[0]),
            detail="the log is read as bytes (%s)" % common.short(callee_paths(b.blocks[tolerant[0]]["term"])[0]) if not strict and tolerant else
            "the log is read with %s, which fails on a line that is not valid UTF-8" % common.short(callee_paths(b.blocks[strict[0]]["term"])[0]) if strict else "no read of the log found")
@@ -1957,7 +1962,7 @@ def memo_after_failed_test(ctx, rid):
 TABLE = {
     "C02": [("R2.7", every_candidate_leaves_an_edge), ("R2.10", add_dep_replaces_unconditionally),
             ("R2.8", borrow("C03", "R3.2", None, "a build wrongly taken for a stamped one never advances changed_runid: the target and its dependents then re-run on every later redo-ifchange"))],
-    "C13": [("R13.6", every_candidate_leaves_an_edge), ("R13.7", check_never_refreshes_stamps),
+    "C13": [("R13.10", shebang_read_tolerates_any_bytes), ("R13.6", every_candidate_leaves_an_edge), ("R13.7", check_never_refreshes_stamps),
             ("R13.8", borrow("C02", "R2.3", r"^(add_dep\||sql-literals-found)", "a must-not-exist edge for a higher-priority .do candidate has to replace last build's row (and clear its deletion mark), or it is swept after the second build and a new candidate is never noticed"))],
     "C03": [("R3.12", memo_after_failed_test), ("R3.13", stamped_mark_is_build_specific), ("R3.9", signal_death_is_failure), ("R3.10", uncertain_is_not_built_directly), ("R3.11", stamp_reads_to_eof)],
     "C05": [("R5.8", signal_death_is_failure),
